@@ -9,4 +9,11 @@ for p in props:
     if p not in claimed and p not in na: print("unlisted:",p)
 for f in glob.glob('/verif/evidence/*.json'):
     jsonschema.validate(json.load(open(f)),json.load(open('/root/.vp/EVIDENCE.schema.json')))
+bad=0
+for c in m['checks']:
+    try: e=json.load(open(c['evidence_file']))
+    except Exception as ex: print("no evidence for",c['property_id'],ex); bad+=1; continue
+    if e['level']!=c['level_claimed']['category']: print("level mismatch",c['property_id'],e['level'],c['level_claimed']['category']); bad+=1
+    if e['property_id']!=c['property_id']: print("wrong id in",c['evidence_file']); bad+=1
+if bad: sys.exit(1)
 print("manifest+evidence ok; claimed",claimed)
